@@ -44,6 +44,11 @@ def Arg.isDatetime : Arg → Bool | .datetime _ _ => true | _ => false
 def Arg.isTimedelta : Arg → Bool | .timedelta _ _ => true | _ => false
 def Elem.isTs : Elem → Bool | .ts _ _ => true | .bad => false
 def Elem.val : Elem → Int | .ts _ v => v | .bad => 0
+def Arg.isSeq : Arg → Bool | .seq _ => true | _ => false
+/-- the elements of a sequence argument (nothing for the other kinds, which the code never iterates) -/
+def Arg.elems : Arg → List Elem | .seq l => l | _ => []
+/-- the timestamp values of a sequence argument, as the monotonicity scan reads them -/
+def Arg.elemVals (a : Arg) : List Int := a.elems.map Elem.val
 
 /-- `_get_direction`: INCREASING = -1, UNKNOWN = 0, DECREASING = 1 -/
 def direction (l r : Int) : Int := if l < r then -1 else if r < l then 1 else 0
